@@ -11,6 +11,8 @@ MC = 'explicit-state model checking of the implementation (exhaustive search ove
 CHECKS = {
     'C01': ('exploration', 'every circuit over the operator/node library with <=2 (thorough 3) nodes and every edge multiset of size <=2 (3), hierarchy, edge templates, vectorize on/off is compiled by the real code and compared per frontend variable with an independent dict-state reference semantics at a base point plus all single deviations of every state variable and constant',
             'finite probe alphabet instead of all reals; models larger than the bounds and operators outside the library are not covered; reference semantics (pyx/refsem) is trusted and self-tested', EXPL, 'DESIGN.md 3 C01'),
+    'C02': ('exploration', 'feature basket (operators covering the functions of the registries, long right-hand sides that force Fortran line wrapping with exponents, circuits with weighted sums / matvec / index helpers, edge templates, hierarchy) x backend{default, torch, jax, fortran} x precision{float64, float32} x vectorize x vector-field convention{in-place, returned}: vector field per frontend variable at a base point plus all single deviations and the returned argument values vs the reference semantics (hence vs every other backend); trajectories for every solver a backend supports vs the default backend; discrete delay buffers on torch/fortran; extrinsic-input interpolation per backend is decided by C08',
+            'Julia/Matlab/TensorFlow backends are not installed; float32 cells are compared at 3e-4 relative; quick tier builds 5 Fortran models', EXPL, 'DESIGN.md 3 C02'),
     'C03': ('exploration', 'full lattice model x solver(euler, heun) x dt x dts/dt x T/dts x cutoff on binary-fraction grids plus slices for scipy methods, torch and jax solvers: the DataFrame of run() is compared row by row and index by index with the harness own Euler/Heun loop over the vector field of an identically built template (exact), with closed forms for adaptive solvers, and two-level refinement for convergence',
             'five small models; T a multiple of the sampling step; stiff systems not covered', EXPL, 'DESIGN.md 3 C03'),
     'C04': ('exploration', 'circuits of 1..N structurally identical nodes per type with pairwise distinct per-node parameters; every weight pattern over a 3-value alphabet for 2x2 blocks and all patterns with <=3 non-zeros for larger/non-square blocks, two node types, delays, edge templates, matrix_sparseness thresholds: compiled with vectorize on and off from fresh state; derivative per frontend variable at a base point plus all single deviations and euler trajectories must agree with each other and with the reference semantics',
